@@ -97,6 +97,8 @@ func runC11(l *core.Ledger) {
 			switch {
 			case !has || !isNotSet(lv):
 				l.Bad("C11-K1", key, al.Pos(), "a new Correctable does not start at LevelNotSet (level field left at its zero value 0 or set to something else): Get before the first publication reports level 0, and Watch(0) is released at once")
+			case fields["donech"] == nil || func() bool { _, isMake := fields["donech"].(*ssa.MakeChan); return !isMake }():
+				l.Bad("C11-K1", key, al.Pos(), "a new Correctable is created without its completion channel (donech is not made at construction): a channel made later, on demand, may be made after the completion that should have closed it - Done() then never fires")
 			case fields["reply"] != nil || fields["err"] != nil || fields["done"] != nil:
 				l.Bad("C11-K1", key, al.Pos(), "a new Correctable is created with a reply, error or done flag already set")
 			default:
@@ -118,6 +120,7 @@ func runC11(l *core.Ledger) {
 		return
 	}
 	key := rl.key
+	ctxCaseCompletes(l, rl, "C11-K5")
 	if len(rl.qfCalls) != 1 || rl.qfCalls[0].Parent() != rl.fn {
 		l.Bad("C11-K3", key+"/slot-call", rl.fn.Pos(), "expected exactly one quorum-function call in the correctable loop")
 		return
@@ -655,6 +658,22 @@ func c11Set(l *core.Ledger, r *rt) {
 		})
 	}
 	l.Check(len(closers) == 1 && closers[0] == key, "C11-K5", "who-may-close/Correctable.donech", fn.Pos(), "only set closes donech", fmt.Sprintf("donech closed by %v", closers))
+	// who may write the field: nobody after construction (Done() hands out the channel made with the call)
+	var writers []string
+	for _, f := range allFuncs(l.Prog, r.pkg) {
+		sx.AllInstrs(f, func(_ sx.Node, in ssa.Instruction) {
+			st, ok := in.(*ssa.Store)
+			if !ok {
+				return
+			}
+			if base, ok := fieldAddrOf(st.Addr, "donech"); ok && isNamed(base.Type(), core.RootModule, "Correctable") {
+				if _, fresh := base.(*ssa.Alloc); !fresh {
+					writers = append(writers, fnKey(f))
+				}
+			}
+		})
+	}
+	l.Check(len(writers) == 0, "C11-K5", "who-may-write/Correctable.donech", fn.Pos(), "the completion channel is the one made at construction", fmt.Sprintf("the completion channel is (re)assigned after construction by %v: a Done() taken after the completion gets a channel nobody closes", writers))
 }
 
 func c11Watch(l *core.Ledger, r *rt) {
